@@ -45,3 +45,108 @@ Print Assumptions c02_pinned_full_window_refuted.
 (* Non-vacuity: a state with all three groups populated and a marker satisfies the hypotheses. *)
 Example c02_nonvacuous : ltac:(let t := type of adopt_exact_nonvacuous in exact t).
 Proof. exact adopt_exact_nonvacuous. Qed.
+
+(* ---- mixed histories: API calls interleaved with process stop + AdoptSession ---- *)
+(* Additions for coq/props/C02.v (append; needs MixedHistories in the Require line):
+   From MQ Require Import Session Outbound OutboundInv OutboundRefine SessionTheorems AdoptProofs MixedHistories. *)
+From MQ Require Import Session Outbound OutboundInv OutboundRefine SessionTheorems AdoptProofs MixedHistories.
+
+(* The two side conditions of c02_adopt_exact are invariants of the abstract system: every
+   step keeps them (the second one given ascending Persistence keys, which OInv' contains). *)
+Theorem c02_known_keys_step : forall st st', ostep st st' -> known_keys st -> known_keys st'.
+Proof. exact known_keys_step. Qed.
+Print Assumptions c02_known_keys_step.
+
+Theorem c02_markers_genuine_step : forall st st',
+  ostep st st' -> sorted_keys (o_store st) -> markers_genuine st -> markers_genuine st'.
+Proof. exact markers_genuine_step. Qed.
+Print Assumptions c02_markers_genuine_step.
+
+(* ... and ascending keys cannot be dropped from the second one. *)
+Theorem c02_markers_genuine_needs_sorted :
+  exists st st', ostep st st' /\ markers_genuine st /\ ~ markers_genuine st'.
+Proof. exact markers_genuine_step_needs_sorted. Qed.
+Print Assumptions c02_markers_genuine_needs_sorted.
+
+(* A failed AdoptSession (Persistence failure, limits below the pending windows) on the
+   Persistence of a Good state deletes nothing. *)
+Theorem c02_failed_adopt_deletes_nothing : forall st m',
+  Good st -> purge (o_store st) m' -> m' = o_store st.
+Proof. exact good_purge_id. Qed.
+Print Assumptions c02_failed_adopt_deletes_nothing.
+
+(* ONE API call of any kind -- AdoptSession after a process stop included, under every
+   environment script -- keeps Good = OInv' /\ known_keys /\ markers_genuine. *)
+Theorem c02_every_call_keeps_good : forall s o tp s' r log,
+  exec s o tp = Some (s', r, log) -> op_level_ok o -> Good (ost_of s) ->
+  o_rseq (ost_of s') < M64 -> Good (ost_of s').
+Proof. exact exec_good. Qed.
+Print Assumptions c02_every_call_keeps_good.
+
+(* AdoptSession itself needs no bound on the storage counter; the store is unchanged whether
+   it returns a client or not. *)
+Theorem c02_adopt_keeps_good : forall s m1 m2 tp s' r log,
+  exec s (OpAdopt m1 m2) tp = Some (s', r, log) -> Good (ost_of s) ->
+  Good (ost_of s') /\ sy_m s' = sy_m s /\ o_rseq (ost_of s') <= o_rseq (ost_of s).
+Proof. exact exec_adopt_good. Qed.
+Print Assumptions c02_adopt_keeps_good.
+
+(* Mixed histories: API calls interleaved with process stop + AdoptSession, any number of
+   times, from InitSession on, under every environment script.  The storage counter must stay
+   below 2^64 in every state along the run (an adoption restarts it at the largest storage
+   number found, so the final state alone says nothing about the earlier ones). *)
+Theorem c02_reachable_good_mixed : forall cf cid tp0 s0 h,
+  cfg_ok cf -> init_sys cf cid tp0 = Some s0 ->
+  Forall (fun p => op_level_ok (fst p)) h ->
+  rseq_bounded s0 h ->
+  Good (ost_of (run s0 h)).
+Proof. exact reachable_good_mixed. Qed.
+Print Assumptions c02_reachable_good_mixed.
+
+(* ... and in every state between two calls (every stop point between calls). *)
+Theorem c02_reachable_good_mixed_all : forall cf cid tp0 s0 h,
+  cfg_ok cf -> init_sys cf cid tp0 = Some s0 ->
+  Forall (fun p => op_level_ok (fst p)) h ->
+  rseq_bounded s0 h ->
+  Forall (fun x => Good (ost_of x)) (s0 :: run_states s0 h).
+Proof. exact reachable_good_mixed_all. Qed.
+Print Assumptions c02_reachable_good_mixed_all.
+
+(* c02_adopt_exact at every state reached by a mixed history: the only conditions left are
+   no Persistence failure during the adoption and limits not below the pending windows. *)
+Theorem c02_adopt_exact_reachable : ltac:(let t := type of adopt_exact_reachable in exact t).
+Proof. exact adopt_exact_reachable. Qed.
+Check c02_adopt_exact_reachable.
+Print Assumptions c02_adopt_exact_reachable.
+
+(* The same as a call of the closed system; the state after the adoption is again reachable by
+   a mixed history, so the statement applies to it: at any stop point, repeatedly. *)
+Theorem c02_adopt_exec_reachable : forall s m1 m2 tp s' r log,
+  reachable_mixed s ->
+  Forall (fun b => b = false) (tp_stf tp) ->
+  let st := ost_of s in let st' := ost_of s' in
+  o_acc1 st - o_acked st <= norm_max m1 -> o_acc2 st - o_compl st <= norm_max m2 ->
+  exec s (OpAdopt m1 m2) tp = Some (s', r, log) ->
+  r = RetAdopt 0 E_nil /\ sy_m s' = sy_m s
+  /\ o_max1 st' = norm_max m1 /\ o_max2 st' = norm_max m2
+  /\ o_acc1 st' - o_acked st' = o_acc1 st - o_acked st
+  /\ o_acc2 st' - o_compl st' = o_acc2 st - o_compl st
+  /\ o_recvd st' - o_compl st' = o_recvd st - o_compl st
+  /\ (o_acked st < o_acc1 st -> o_acked st' = o_acked st mod 16384)
+  /\ (o_compl st < o_acc2 st -> o_compl st' = o_compl st mod 16384)
+  /\ o_sub1 st' = o_acc1 st' /\ o_sub2 st' = o_acc2 st'
+  /\ len (o_q1 st') = o_acc1 st - o_acked st /\ len (o_q2 st') = o_acc2 st - o_compl st
+  /\ o_term st' = false /\ o_closed st' = false
+  /\ o_rseq st' <= o_rseq st
+  /\ reachable_mixed s'.
+Proof. exact adopt_exec_reachable. Qed.
+Print Assumptions c02_adopt_exec_reachable.
+
+(* Non-vacuity: publish, stop + adopt, publish, stop + adopt, publish: every hypothesis of
+   c02_reachable_good_mixed holds, both adoptions return a client without warning, and the
+   three accepted publications are pending at the end. *)
+Example c02_mixed_nonvacuous : ltac:(let t := type of mixed_nonvacuous in exact t).
+Proof. exact mixed_nonvacuous. Qed.
+Check c02_mixed_nonvacuous.
+
+(* ------------------------------------------------------------------ *)
